@@ -466,6 +466,29 @@ def check(pid, tier, seed):
     os.makedirs(outdir, exist_ok=True)
     violations = []; known_hits = {}; inconclusive = []; unconfirmed = []
     witness_ok = 0; witness_bad = []
+    def replay_unit(r):
+        """replays the distinct failures of one unit (sequentially: their replay files share a name stem)"""
+        out = []
+        seen = set()
+        for f in r.get('failures', []):
+            key = (f['kind'], f.get('site'), (f.get('where') or [''])[-1])
+            if key in seen:
+                continue
+            seen.add(key)
+            k = match_known(known, pid, r, f)
+            if k is not None:
+                out.append(('known', k['what'], None))
+                continue
+            ok, rp, detail = replay_failure(FE, r, f, outdir)
+            rec = {'unit': r['name'], 'kind': f['kind'], 'site': f.get('site'), 'what': f['what'], 'replay': rp,
+                   'inputs': f['inputs'][:16], 'native': detail[:800], 'where': f.get('where')}
+            jp = rp[:-3] + '.json'
+            json.dump({'property': pid, 'unit': r['spec'], 'failure': f, 'native': detail}, open(jp, 'w'), indent=1, default=str)
+            rec['replay'] = jp
+            out.append(('violation' if ok else 'unconfirmed', rec, None))
+        return out
+
+    todo = []
     for r in results:
         spec = r['spec']
         if spec.get('witness'):
@@ -475,26 +498,19 @@ def check(pid, tier, seed):
             continue
         for w in r.get('inconclusive', []):
             inconclusive.append(f'{r["name"]}: {w}')
-        seen = set()
-        for f in r.get('failures', []):
-            key = (f['kind'], f.get('site'), (f.get('where') or [''])[-1])
-            if key in seen:
-                continue
-            seen.add(key)
-            k = match_known(known, pid, r, f)
-            if k is not None:
-                known_hits.setdefault(k['what'], []).append(r['name'])
-                continue
-            ok, rp, detail = replay_failure(FE, r, f, outdir)
-            rec = {'unit': r['name'], 'kind': f['kind'], 'site': f.get('site'), 'what': f['what'], 'replay': rp,
-                   'inputs': f['inputs'][:16], 'native': detail[:800], 'where': f.get('where')}
-            jp = rp[:-3] + '.json'
-            json.dump({'property': pid, 'unit': spec, 'failure': f, 'native': detail}, open(jp, 'w'), indent=1, default=str)
-            rec['replay'] = jp
-            if ok:
-                violations.append(rec)
-            else:
-                unconfirmed.append(rec)
+        if r.get('failures'):
+            todo.append(r)
+    if todo:
+        with Pool(min(nproc, len(todo))) as pool:
+            outs = pool.map(replay_unit, todo, chunksize=1)
+        for r, out in zip(todo, outs):
+            for tag, rec, _ in out:
+                if tag == 'known':
+                    known_hits.setdefault(rec, []).append(r['name'])
+                elif tag == 'violation':
+                    violations.append(rec)
+                else:
+                    unconfirmed.append(rec)
     for wname in witness_bad:
         inconclusive.append(f'{wname}: sabotage twin was not refuted (vacuity guard)')
     for u in unconfirmed:
